@@ -119,20 +119,23 @@ CHECKS = {
     "C16": ("core", "proof",
             'Theorems parse_shift / gen_parse_shift and no_lookbehind / gen_no_lookbehind (every SOI-free rule table incl. optimizer-made nodes, start rule, input, k <= len(input), fuel): parsing at start_pos = k equals parsing text[k:] at 0 shifted by k - same verdict, trees shifted, end position k further, furthest-failure position shifted (or both unset), same expected/unexpected keys and rule stack; and the result does not depend on the characters before k. Proved for the interpreter model L1 and directly for the generated-code model LG. The run evaluates SOI-freeness through the model on every grammar and its optimized form (evidence hyp:*:soifree). Checked on the implementation in all four modes: parse(r,t,start_pos=k) vs parse(r,t[k:]) shifted, prefix replaced, random k in every correspondence request. Not a theorem: that the optimizer keeps a table SOI-free (evaluated per grammar instead).',
             "Lean 4 simulation proof between the two inputs (ShiftRel/ResRel through every node of L1 and LG); " + T_MODEL),
-    "C17": ("examples", "other",
-            "Calculator half PROVED for all well-formed token lists of any length and nesting (calc_three_agree, calc_total, "
-            "calc_values_agree): the tree the grammar-encoded implementation builds is Good in the sense of C18's binding-power specification "
-            "for every calculator-shaped table whose levels are in the documented order, so by C18 (pratt_complete, good_unique) it is what "
-            "the Pratt parser and the precedence-climbing loop return on their regenerated tables (compared by order, not by number) and what "
-            "the reference evaluator computes. JSON half: PROVED against the specification L0 on the regenerated rule tables of both bundled "
-            "grammars - every RFC 8259 number, string, value and every document with a container at top level, any nesting and whitespace, is "
-            "accepted with exactly the tree that mirrors json.loads (json_accepts, json_accepts_tests). NOT proved: rejection of every proper "
-            "prefix (json_rejects_prefix, full statement in the file), and the step from L0 to the four execution modes for these grammars "
-            "(that is C01-C04 plus C02's hypotheses) - hence level 'other'. Checked on the implementation on every run: generated JSON "
-            "documents and all their proper prefixes in all four modes against json.loads; generated and exhaustive small arithmetic "
-            "expressions through the three calculators against an independent evaluator; the Lean models of the three calculators and of the "
-            "JSON mirror compared with the implementation on the same inputs.",
-            "Lean 4 proofs (calculators via C18's uniqueness theorem; JSON by big-step derivations in L0 on regenerated grammar terms) + regenerated tables + differential search against json.loads and a reference evaluator"),
+    "C17": ("examples", "proof",
+            "Calculator half, for all well-formed token lists of any length and nesting (calc_three_agree, calc_total, calc_values_agree): the "
+            "tree the grammar-encoded implementation builds is Good in the sense of C18's binding-power specification for every "
+            "calculator-shaped table whose levels are in the documented order, so by C18 (pratt_complete, good_unique) it is what the Pratt "
+            "parser and the precedence-climbing loop return on their regenerated tables (compared by order, not by number) and what the "
+            "reference evaluator computes; no implementation raises. JSON half, on the rule tables of BOTH bundled grammars regenerated from "
+            "the source on every run: json_accepts - every RFC 8259 document with a container at top level (any nesting, any whitespace, "
+            "any spelling of numbers and strings) is accepted by pest's semantics L0 with exactly the tree that mirrors the document; "
+            "json_rejects_prefix - every proper prefix of a document written without trailing whitespace is rejected (the grammar is "
+            "evaluated forward on the truncated input wherever the cut falls); json_modes_accept / json_modes_reject_prefix - the same for "
+            "all four execution-mode models (L1 and LG on the plain and on the optimized table), using C03, C01/C07 and C02, whose "
+            "hypotheses (genShapeB, skipTotalB, callable, OptS.wfCheck, WF.wellFormed, optimize = some …) are evaluated on the regenerated "
+            "tables by decide. Not theorems (checked against Python's json module on every generated document): that Doc/render is RFC "
+            "8259, float(token) equality and raw string slices as json.loads sees them. The models of the calculators, the JSON mirror and "
+            "the four modes are compared with the implementation on generated documents, all their proper prefixes, and generated and "
+            "exhaustive small arithmetic expressions, against json.loads and an independent evaluator.",
+            "Lean 4 proofs (calculators via C18's uniqueness theorem; JSON by big-step derivations in L0 on regenerated grammar terms, lifted to the four mode models through C01/C02/C03) + regenerated tables + differential search against json.loads and a reference evaluator"),
     "C18": ("pratt", "proof",
             "Theorems for all operator tables and all token streams: the model of the repaired parse_expr consumes every well-formed stream "
             "(pratt_consumes_all), yields the input (pratt_yield), returns a tree satisfying the binding-power specification Good (pratt_good), "
